@@ -35,10 +35,17 @@ const (
 
 var kindName = [3]string{"P", "v", "c"}
 
+// Two heights are folded into one "virtual round" axis: rk = height*hStride + round (round <= 3). Everything that is
+// indexed or ordered by round (message classes, timeout bits, monitor tables) uses rk, so height-0 classes sort
+// before height-1 classes and single-height configurations are unchanged (rk == round).
+const hStride = 4
+
+func rkOf(h, r int) int8 { return int8(h*hStride + r) }
+
 // msg is the harness' compact message.
 type msg struct {
 	kind   uint8
-	round  int8
+	round  int8 // virtual round rk
 	sender int8
 	val    vid
 	vr     int8
@@ -58,7 +65,11 @@ func (m msg) String() string {
 	if m.val >= 0 {
 		v = "V" + strconv.Itoa(int(m.val))
 	}
-	s := fmt.Sprintf("%s%d.%d:%s", kindName[m.kind], m.round, m.sender, v)
+	rd := strconv.Itoa(int(m.round))
+	if m.round >= hStride {
+		rd = fmt.Sprintf("h%dr%d", m.round/hStride, m.round%hStride)
+	}
+	s := fmt.Sprintf("%s%s.%d:%s", kindName[m.kind], rd, m.sender, v)
 	if m.kind == kProp {
 		s += "/" + strconv.Itoa(int(m.vr))
 	}
@@ -80,6 +91,9 @@ func inputString(in uint32) string {
 		return unpack(in & 0xfffff).String()
 	default:
 		t := in & 0xfffff
+		if t/3 >= hStride {
+			return fmt.Sprintf("Th%dr%d.%s", t/3/hStride, t/3%hStride, types.Step(t%3))
+		}
 		return fmt.Sprintf("T%d.%s", t/3, types.Step(t%3))
 	}
 }
@@ -89,7 +103,9 @@ type cfg struct {
 	n       int
 	powers  []uint
 	byz     int
-	R       int // highest round whose messages/timeouts are processed
+	R       int   // highest round processed at height 0
+	RH      []int // per height
+	H       int   // last height run (0 or 1)
 	total   uint
 	q, f    uint // harness' own thresholds: q = min{q: 3q>=2N}, f = max{f: 3f<N}
 	correct []int
@@ -110,8 +126,16 @@ type cfg struct {
 	dupNo atomic.Int64 // duplicate deliveries that were not no-ops
 }
 
-func newCfg(name string, powers []uint, byz, R int) *cfg {
-	c := &cfg{name: name, n: len(powers), powers: powers, byz: byz, R: R, logger: log.NewNopZapLogger()}
+func newCfg(name string, powers []uint, byz, R int) *cfg { return newCfgH(name, powers, byz, []int{R}) }
+
+// newCfgH: RH[h] = highest round processed at height h; len(RH) heights are run (1 or 2).
+func newCfgH(name string, powers []uint, byz int, RH []int) *cfg {
+	c := &cfg{name: name, n: len(powers), powers: powers, byz: byz, R: RH[0], RH: RH, H: len(RH) - 1, logger: log.NewNopZapLogger()}
+	for _, x := range RH {
+		if x >= hStride-1 || len(RH) > 2 {
+			panic("round/height bound exceeds the encoding")
+		}
+	}
 	for _, p := range powers {
 		c.total += p
 	}
@@ -145,13 +169,21 @@ func newCfg(name string, powers []uint, byz, R int) *cfg {
 	c.cmu = make([]sync.Mutex, len(c.correct))
 	for s := range c.correct {
 		c.canon[s] = map[[16]byte]*node{}
-		root := &node{slot: int8(s), mon: newMon(c), decVal: nilV, sum: summary{lockedRound: -1, validRound: -1, lockedVal: nilV, validVal: nilV}}
+		root := &node{slot: int8(s), mon: newMon(c), decVal: nilV, dec: [2]int8{none, none}, sum: summary{lockedRound: -1, validRound: -1, lockedVal: nilV, validVal: nilV}}
 		c.roots = append(c.roots, root)
 	}
 	return c
 }
 
-func (c *cfg) proposer(r int) int { return r % c.n } // height 0, round robin (see vals.Proposer)
+// proposer of virtual round rk: round robin over (height+round), i.e. the proposer rotates across heights too
+// (see vals.Proposer, which is what the real code is given).
+func (c *cfg) proposer(rk int) int { return (rk/hStride + rk%hStride) % c.n }
+
+// inBound: is virtual round rk inside the explored heights / rounds?
+func (c *cfg) inBound(rk int) bool {
+	h, r := rk/hStride, rk%hStride
+	return rk >= 0 && h <= c.H && r <= c.RH[h]
+}
 
 // ---- harness Application / Validators -----------------------------------------------------
 
@@ -182,7 +214,7 @@ func (c *cfg) fresh(slot int) machine {
 }
 
 func (c *cfg) hdr(m msg) starknet.MessageHeader {
-	return starknet.MessageHeader{Height: 0, Round: types.Round(m.round), Sender: c.addrs[m.sender]}
+	return starknet.MessageHeader{Height: types.Height(m.round / hStride), Round: types.Round(m.round % hStride), Sender: c.addrs[m.sender]}
 }
 
 func (c *cfg) idPtr(v vid) *starknet.Hash {
@@ -211,7 +243,7 @@ func (c *cfg) feed(sm machine, in uint32) []starknet.Action {
 		}
 	default:
 		t := in & 0xfffff
-		return sm.ProcessTimeout(types.Timeout{Step: types.Step(t % 3), Height: 0, Round: types.Round(t / 3)})
+		return sm.ProcessTimeout(types.Timeout{Step: types.Step(t % 3), Height: types.Height(t / 3 / hStride), Round: types.Round(t / 3 % hStride)})
 	}
 }
 
@@ -222,6 +254,7 @@ type summary struct { // read reflectively from the machine; used by the schedul
 	lockedRound, validRound int8
 	lockedVal, validVal    vid
 	height                 int8
+	rk                     int8 // height*hStride + round
 }
 
 type edge struct {
@@ -239,10 +272,13 @@ type node struct {
 	ch     map[uint32]*edge
 
 	// cumulative, from OUTPUTS only
-	decided  bool
-	decRound int8
+	decided  bool // committed at the LAST height run: the validator is finished
+	decRound int8 // last commit
 	decVal   vid
-	maxRound int8
+	hgt      int8    // commits so far = current height (from outputs)
+	dec      [2]int8 // per height: committed value id, none = nothing yet
+	decR     [2]int8
+	maxRound int8 // highest virtual round entered
 	viol     []violation
 	mon      *mon
 
@@ -287,7 +323,7 @@ func (c *cfg) next(p *node, in uint32) *edge {
 	acts := c.feed(sm, in)
 	e = &edge{}
 	child := &node{slot: p.slot, parent: p, in: in, decided: p.decided, decRound: p.decRound,
-		decVal: p.decVal, maxRound: p.maxRound, viol: p.viol}
+		decVal: p.decVal, maxRound: p.maxRound, viol: p.viol, hgt: p.hgt, dec: p.dec, decR: p.decR}
 	m := p.mon.clone()
 	self := int8(c.correct[p.slot])
 	if in>>20 == 1 {
@@ -304,9 +340,12 @@ func (c *cfg) next(p *node, in uint32) *edge {
 	for _, a := range acts {
 		switch a := a.(type) {
 		case *starknet.BroadcastProposal:
-			om := msg{kind: kProp, round: int8(a.Round), sender: self, val: c.vidOf(a.Value), vr: int8(a.ValidRound)}
-			if k := c.checkHdr(a.Sender, a.Height, self); k != "" {
+			om := msg{kind: kProp, round: rkOf(int(a.Height), int(a.Round)), sender: self, val: c.vidOf(a.Value), vr: int8(a.ValidRound)}
+			if k := c.checkHdr(a.Sender, a.Height, self, child.hgt); k != "" {
 				addViol("bad-header proposal", k)
+			}
+			if a.Round >= hStride {
+				continue
 			}
 			if om.val < 0 {
 				addViol("proposal-unknown-value", fmt.Sprint(a.Value))
@@ -316,9 +355,12 @@ func (c *cfg) next(p *node, in uint32) *edge {
 			e.out = append(e.out, om.pack())
 			child.maxRound = max(child.maxRound, om.round)
 		case *starknet.BroadcastPrevote:
-			om := msg{kind: kPrevote, round: int8(a.Round), sender: self, val: c.vidOfHash(a.ID), vr: -1}
-			if k := c.checkHdr(a.Sender, a.Height, self); k != "" {
+			om := msg{kind: kPrevote, round: rkOf(int(a.Height), int(a.Round)), sender: self, val: c.vidOfHash(a.ID), vr: -1}
+			if k := c.checkHdr(a.Sender, a.Height, self, child.hgt); k != "" {
 				addViol("bad-header prevote", k)
+			}
+			if a.Round >= hStride {
+				continue
 			}
 			if k, w := m.onPrevote(c, om); k != "" {
 				addViol(k, w)
@@ -326,9 +368,12 @@ func (c *cfg) next(p *node, in uint32) *edge {
 			e.out = append(e.out, om.pack())
 			child.maxRound = max(child.maxRound, om.round)
 		case *starknet.BroadcastPrecommit:
-			om := msg{kind: kPrecommit, round: int8(a.Round), sender: self, val: c.vidOfHash(a.ID), vr: -1}
-			if k := c.checkHdr(a.Sender, a.Height, self); k != "" {
+			om := msg{kind: kPrecommit, round: rkOf(int(a.Height), int(a.Round)), sender: self, val: c.vidOfHash(a.ID), vr: -1}
+			if k := c.checkHdr(a.Sender, a.Height, self, child.hgt); k != "" {
 				addViol("bad-header precommit", k)
+			}
+			if a.Round >= hStride {
+				continue
 			}
 			if k, w := m.onPrecommit(c, om); k != "" {
 				addViol(k, w)
@@ -336,22 +381,32 @@ func (c *cfg) next(p *node, in uint32) *edge {
 			e.out = append(e.out, om.pack())
 			child.maxRound = max(child.maxRound, om.round)
 		case *actions.ScheduleTimeout:
-			if a.Height == 0 && a.Round >= 0 && int(a.Round) < 15 {
-				e.tmo = append(e.tmo, uint8(int(a.Round)*3+int(a.Step)))
-				child.maxRound = max(child.maxRound, int8(a.Round))
+			if int8(a.Height) != child.hgt {
+				addViol("bad-header timeout", fmt.Sprintf("timeout scheduled for height %d while at height %d", a.Height, child.hgt))
+			} else if a.Round >= 0 && a.Round < hStride && int(a.Height) <= c.H {
+				rk := rkOf(int(a.Height), int(a.Round))
+				e.tmo = append(e.tmo, uint8(int(rk)*3+int(a.Step)))
+				child.maxRound = max(child.maxRound, rk)
 			}
 		case *starknet.Commit:
 			v := c.vidOf(a.Value)
-			if child.decided {
-				addViol("double-commit", fmt.Sprintf("second Commit (round %d value V%d) after deciding V%d@%d", a.Round, v, child.decVal, child.decRound))
+			if child.decided || int8(a.Height) != child.hgt || a.Round >= hStride {
+				addViol("double-commit", fmt.Sprintf("Commit (height %d round %d value V%d) while at height %d (last decision V%d@%d, finished=%v)", a.Height, a.Round, v, child.hgt, child.decVal, child.decRound, child.decided))
+				continue
 			}
-			child.decided, child.decRound, child.decVal = true, int8(a.Round), v
-			if k, w := m.onCommit(c, int(a.Round), v, c.addrIdx[a.Sender], a.Height); k != "" {
+			rk := rkOf(int(a.Height), int(a.Round))
+			child.decRound, child.decVal = rk, v
+			child.dec[child.hgt], child.decR[child.hgt] = v, rk
+			if k, w := m.onCommit(c, int(rk), v, c.addrIdx[a.Sender], a.Height); k != "" {
 				addViol(k, w)
 			}
+			child.hgt++
+			child.decided = int(child.hgt) > c.H
 		case *starknet.WriteWAL:
 		case *actions.TriggerSync:
-			addViol("unexpected-trigger-sync", fmt.Sprintf("%+v", *a)) // single height: never legitimate here
+			if c.H == 0 {
+				addViol("unexpected-trigger-sync", fmt.Sprintf("%+v", *a)) // single height: never legitimate
+			}
 		default:
 			addViol("unknown-action", fmt.Sprintf("%T", a))
 		}
@@ -372,7 +427,7 @@ func (c *cfg) next(p *node, in uint32) *edge {
 		}
 	}
 	m.dump(&buf)
-	fmt.Fprintf(&buf, "|d%v %d %d|v%d", child.decided, child.decRound, child.decVal, len(child.viol))
+	fmt.Fprintf(&buf, "|d%v %d %v %v|v%d", child.decided, child.hgt, child.dec, child.decR, len(child.viol))
 	h := sha256.Sum256(buf.Bytes())
 	copy(child.hash[:], h[:16])
 
@@ -399,8 +454,8 @@ func (c *cfg) next(p *node, in uint32) *edge {
 	return e
 }
 
-func (c *cfg) checkHdr(sender starknet.Address, h types.Height, self int8) string {
-	if sender != c.addrs[self] || h != 0 {
+func (c *cfg) checkHdr(sender starknet.Address, h types.Height, self, hgt int8) string {
+	if sender != c.addrs[self] || int8(h) != hgt {
 		return fmt.Sprintf("sender=%v height=%d", sender, h)
 	}
 	return ""
@@ -528,6 +583,7 @@ func (c *cfg) readSummary(sm machine) summary {
 		return -2
 	}
 	return summary{
+		rk:          int8(st.FieldByName("height").Uint())*hStride + int8(st.FieldByName("round").Int()),
 		height:      int8(st.FieldByName("height").Uint()),
 		round:       int8(st.FieldByName("round").Int()),
 		step:        int8(st.FieldByName("step").Uint()),
